@@ -260,21 +260,13 @@ Proof.
       unfold st. rewrite (msg_connect c _ payload s r Hb Hd Ht). pose proof (mirror_connect c (pns (rp r)) (pdata (rp r)) s) as Hm.
       cbv zeta in Hm. unfold st in Hm. rewrite Hm. clear Hm. rewrite Hn.
       cbn [sv_packet] in Hv.
-      assert (Hv' : (if negb (ps_dom (sv_packet c (sid s) sv (SConnect (ns_or_default (pns (rp r))) (pdata (rp r)))))
-                     then Some (mkV (ps_view (sv_packet c (sid s) sv (SConnect (ns_or_default (pns (rp r))) (pdata (rp r))))) no_chk)
-                     else judged (ps_calls (sv_packet c (sid s) sv (SConnect (ns_or_default (pns (rp r))) (pdata (rp r)))))
-                            (fun calls => Some (mkV (ps_view (sv_packet c (sid s) sv (SConnect (ns_or_default (pns (rp r))) (pdata (rp r)))))
-                               (fun obs _ _ => flag (calls_eqb calls (calls_for c ev_names_all obs)) B_ONCE)))) = Some v).
-      { first [exact Hv | destruct (sv_acc sv); exact Hv]. }
-      clear Hv. cbn [sv_packet] in Hv'.
-      destruct (ahas str_eqb (sv_acc sv) (ns_or_default (pns (rp r)))).
-      * cbn in Hv'. injection Hv' as <-. cbn [v_view]. rewrite Hl. exact HL.
-      * destruct (connect_sid (pdata (rp r)) (sid s)) as [val|x].
-        -- cbn [ps_dom ps_calls ps_view negb] in Hv'. unfold judged in Hv'.
-           destruct (notify c ev_connect (ns_or_default (pns (rp r))) []); [|discriminate].
-           injection Hv' as <-. cbn [v_view sv_live]. rewrite Hl. repeat split; try assumption.
-           intros _. cbn [sv_acc]. apply aset_nonempty.
-        -- cbn in Hv'. injection Hv' as <-. cbn [v_view]. rewrite Hl. exact HL.
+      destruct (ahas str_eqb (sv_acc sv) (ns_or_default (pns (rp r)))) eqn:Hin; [cbn in Hv; discriminate Hv|].
+      destruct (connect_sid (pdata (rp r)) (sid s)) as [val|x].
+      * cbn [ps_dom ps_calls ps_view negb] in Hv. unfold judged in Hv.
+        destruct (notify c ev_connect (ns_or_default (pns (rp r))) []); [|discriminate].
+        injection Hv as <-. cbn [v_view sv_live]. rewrite Hl. repeat split; try assumption.
+        intros _. cbn [sv_acc]. apply aset_nonempty.
+      * cbn in Hv. injection Hv as <-. cbn [v_view]. rewrite Hl. exact HL.
     + (* DISCONNECT *)
       destruct Hci as (r & Hb & Hd & H0 & Ht & ->).
       unfold st. rewrite (msg_disconnect c _ payload s r Hb Hd H0 Ht).
@@ -299,7 +291,7 @@ Proof.
       assert (Hv' : judged (notify c ev_connect_error (ns_or_default (pns (rp r))) (error_args (pdata (rp r))))
                       (fun calls => Some (mkV (mkSV (adel str_eqb (sv_acc sv) (ns_or_default (pns (rp r)))) (sv_live sv) (sv_req sv) false (sv_ever sv))
                          (fun obs _ _ => flag (calls_eqb calls (calls_for c ev_names_all obs)) B_ONCE))) = Some v).
-      { cbn [sv_packet ps_dom ps_calls ps_view negb] in Hv. rewrite Hsl in Hv. first [exact Hv | destruct (sv_acc sv); exact Hv]. }
+      { cbn [sv_packet ps_dom ps_calls ps_view negb] in Hv. rewrite Hsl, Hna in Hv. first [exact Hv | destruct (sv_acc sv); exact Hv]. }
       clear Hv. unfold judged in Hv'.
       destruct (notify c ev_connect_error (ns_or_default (pns (rp r))) (error_args (pdata (rp r)))) as [calls|] eqn:Hne; [|discriminate].
       injection Hv' as <-. cbn [v_view sv_live]. rewrite Hl.
